@@ -31,43 +31,70 @@ TablesOK ==
 -----------------------------------------------------------------------------
 (* Client programs.  A program is a sequence of statements over ONE cache `c` and ONE   *)
 (* method m of the table:                                                               *)
-(*   take v   : let v = <reference or iterator obtained from c through m>;              *)
-(*   use v    : v is read (keeps the loan of v alive up to here)                        *)
-(*   mutate   : c.put(..)      -- a &mut self call                                      *)
-(*   read     : c.len()        -- a &self call                                          *)
-(*   drop     : drop(c)        -- the cache's lifetime ends                             *)
-Take(v)  == [op |-> "take",   var |-> v]
-Use(v)   == [op |-> "use",    var |-> v]
-Mutate   == [op |-> "mutate", var |-> ""]
-Read     == [op |-> "read",   var |-> ""]
-DropC    == [op |-> "drop",   var |-> ""]
+(*   take v     : let v = <reference or iterator obtained from c through m>;            *)
+(*   clone v s  : let v = s.clone();   -- a duplicate of the result held in s           *)
+(*   next v s   : let v = s.next();    -- the next item of the iterator held in s       *)
+(*   use v      : v is read (keeps the loan v stems from alive up to here)              *)
+(*   mutate     : c.put(..)      -- a &mut self call                                    *)
+(*   read       : c.len()        -- a &self call                                        *)
+(*   drop       : drop(c)        -- the cache's lifetime ends                           *)
+Take(v)     == [op |-> "take",   var |-> v,  src |-> ""]
+CloneOf(v, s) == [op |-> "clone",  var |-> v,  src |-> s]
+NextOf(v, s) == [op |-> "next",   var |-> v,  src |-> s]
+Use(v)      == [op |-> "use",    var |-> v,  src |-> ""]
+Mutate      == [op |-> "mutate", var |-> "", src |-> ""]
+Read        == [op |-> "read",   var |-> "", src |-> ""]
+DropC       == [op |-> "drop",   var |-> "", src |-> ""]
 
-Shapes == {"hold_across_mutation", "hold_across_read", "outlive", "double", "use_then_mutate"}
+Shapes == {"hold_across_mutation", "hold_across_read", "outlive", "double", "use_then_mutate",
+           "clone_result"}
 
-Program(shape) ==
+IsIter(m) == m.ret \in {"iter_shared", "iter_mut"}
+
+(* How the reference is obtained: directly (the method's result is held), or, for a     *)
+(* method that returns an iterator, additionally as the first item the iterator yields  *)
+(* (the item borrows from the cache exactly like the iterator does).                    *)
+Vias(m) == IF IsIter(m) THEN {"direct", "item"} ELSE {"direct"}
+
+(* "clone_result": the result is duplicated and both copies are used; when the result   *)
+(* is an iterator (held directly) both copies are also advanced and both items used --  *)
+(* if the iterator yields &mut V these are two live mutable references to one value.    *)
+Program(m, shape, via) ==
     CASE shape = "hold_across_mutation" -> << Take("r1"), Mutate, Use("r1") >>
       [] shape = "hold_across_read"     -> << Take("r1"), Read,   Use("r1") >>
       [] shape = "outlive"              -> << Take("r1"), DropC,  Use("r1") >>
       [] shape = "double"               -> << Take("r1"), Take("r2"), Use("r1"), Use("r2") >>
       [] shape = "use_then_mutate"      -> << Take("r1"), Use("r1"), Mutate >>
-
-(* How the reference is obtained: directly (the method's result is held), or, for a     *)
-(* method that returns an iterator, additionally as the first item the iterator yields  *)
-(* (the item borrows from the cache exactly like the iterator does).                    *)
-Vias(m) == IF m.ret \in {"iter_shared", "iter_mut"} THEN {"direct", "item"} ELSE {"direct"}
+      [] shape = "clone_result"         ->
+            IF IsIter(m) /\ via = "direct"
+            THEN << Take("r1"), CloneOf("r2", "r1"), NextOf("x1", "r1"), NextOf("x2", "r2"),
+                    Use("x1"), Use("x2"), Use("r1"), Use("r2") >>
+            ELSE << Take("r1"), CloneOf("r2", "r1"), Use("r1"), Use("r2") >>
 
 -----------------------------------------------------------------------------
 (* Loans.  The loan kind follows the RECEIVER: a result obtained through &mut self      *)
 (* keeps the cache mutably borrowed even if the reference handed out is shared; a       *)
 (* result that is (or yields) a mutable reference is exclusive whatever the receiver.   *)
-Exclusive(m) == m.recv = "mut" \/ m.ret \in {"mut", "iter_mut"}
+MutResult(m) == m.ret \in {"mut", "iter_mut"}
+Exclusive(m) == m.recv = "mut" \/ MutResult(m)
+
+(* A duplicate (clone) and an item (next) carry the loan of the result they stem from.  *)
+DefStmt(prog, v) == CHOOSE i \in 1..Len(prog) : prog[i].var = v /\ prog[i].op \in {"take", "clone", "next"}
+RECURSIVE Root(_, _)
+Root(prog, v) == LET d == prog[DefStmt(prog, v)]
+                 IN  IF d.op = "take" THEN v ELSE Root(prog, d.src)
+
+(* statement k needs the loan taken into variable v *)
+Touches(prog, k, v) ==
+    \/ prog[k].op = "use" /\ Root(prog, prog[k].var) = v
+    \/ prog[k].op \in {"clone", "next"} /\ Root(prog, prog[k].src) = v
 
 (* the loan created by statement i is live when statement j executes (non-lexical:      *)
-(* up to the last use of the variable)                                                  *)
+(* up to the last statement that needs it)                                              *)
 LoanLive(prog, i, j) ==
     /\ prog[i].op = "take"
     /\ i < j
-    /\ \E k \in j..Len(prog) : prog[k].op = "use" /\ prog[k].var = prog[i].var
+    /\ \E k \in j..Len(prog) : Touches(prog, k, prog[i].var)
 
 (* statement j is forbidden by a loan that is live across it *)
 Conflict(m, prog, j) ==
@@ -77,7 +104,8 @@ Conflict(m, prog, j) ==
              [] prog[j].op = "drop"   -> TRUE           \* no loan may outlive the cache
              [] prog[j].op = "read"   -> Exclusive(m)   \* &self is fine under a shared loan only
              [] prog[j].op = "take"   -> Exclusive(m)   \* second result of m next to a live first one
-             [] OTHER                 -> FALSE          \* a use conflicts with nothing
+             [] prog[j].op = "clone"  -> MutResult(m)   \* a mutable reference (or what yields one) cannot be duplicated
+             [] OTHER                 -> FALSE          \* a use / next conflicts with nothing
 
 ConflictsAt(m, prog) == { j \in 1..Len(prog) : Conflict(m, prog, j) }
 
@@ -89,19 +117,21 @@ FirstConflict(m, prog) == IF ConflictsAt(m, prog) = {} THEN 0 ELSE Min(Conflicts
 
 BorrowProbes ==
     UNION { { [kind   |-> "borrow", id |-> m.id, type |-> m.type, name |-> m.name,
-               recv   |-> m.recv, ret |-> m.ret, via |-> v, shape |-> s, prog |-> Program(s),
-               expect |-> Verdict(m, Program(s)), at |-> FirstConflict(m, Program(s))]
+               recv   |-> m.recv, ret |-> m.ret, via |-> v, shape |-> s, prog |-> Program(m, s, v),
+               expect |-> Verdict(m, Program(m, s, v)), at |-> FirstConflict(m, Program(m, s, v))]
               : s \in Shapes, v \in Vias(m) }
             : m \in Methods }
 
 (* the table the property text gives, as a theorem about the rules above *)
 BorrowRulesOK ==
-    \A m \in Methods :
-        /\ Verdict(m, Program("hold_across_mutation")) = "reject"
-        /\ Verdict(m, Program("outlive")) = "reject"
-        /\ Verdict(m, Program("use_then_mutate")) = "accept"
-        /\ Verdict(m, Program("hold_across_read")) = (IF Exclusive(m) THEN "reject" ELSE "accept")
-        /\ Verdict(m, Program("double")) = (IF Exclusive(m) THEN "reject" ELSE "accept")
+    \A m \in Methods : \A v \in Vias(m) :
+        /\ Verdict(m, Program(m, "hold_across_mutation", v)) = "reject"
+        /\ Verdict(m, Program(m, "outlive", v)) = "reject"
+        /\ Verdict(m, Program(m, "use_then_mutate", v)) = "accept"
+        /\ Verdict(m, Program(m, "hold_across_read", v)) = (IF Exclusive(m) THEN "reject" ELSE "accept")
+        /\ Verdict(m, Program(m, "double", v)) = (IF Exclusive(m) THEN "reject" ELSE "accept")
+        /\ Verdict(m, Program(m, "clone_result", v)) = (IF MutResult(m) THEN "reject" ELSE "accept")
+        /\ MutResult(m) => FirstConflict(m, Program(m, "clone_result", v)) = 2
 
 -----------------------------------------------------------------------------
 (* Thread transfer.  Element kinds: "plain" u64 (Send + Sync), "cell" Cell<u64> (Send,  *)
